@@ -77,6 +77,13 @@ Parse(sh, def, linux) ==
         THEN [kind |-> "ok", host |-> sh.host, port |-> PortVal[sh.port]]
     ELSE Bad
 
+(* What the doc comment of parse promises for an IPv6 address without a port *)
+(* ("using the preconfigured default port, if address doesn't contain one"):  *)
+(* the code refuses it (BareIPv6Rejected below).  Not reachable through the   *)
+(* resolver; the binding accepts either behaviour.                            *)
+BareIPv6(sh) == sh.host \in {"V6", "V6Z"} /\ ~sh.colon /\ ~sh.lb /\ ~sh.rb
+ParseDoc(sh, def, linux) == IF BareIPv6(sh) THEN [kind |-> "ok", host |-> sh.host, port |-> def] ELSE Parse(sh, def, linux)
+
 (* The grammar, said directly: ip4 | ip4:port | [ip6]:port | [ip6%zone]:port. *)
 Plain(sh) == ~sh.lb /\ ~sh.rb /\ ~sh.extra
 Accepted(sh) == \/ Plain(sh) /\ sh.host \in {"V4", "DOCK"} /\ ~sh.colon
